@@ -1,4 +1,5 @@
 import ChythonModel.Model.C16Patcher
+import ChythonModel.Model.C16Worklist
 /-!
 Line-protocol driver for C16 (all ints after the op).
 
@@ -9,9 +10,14 @@ Line-protocol driver for C16 (all ints after the op).
 * `trans <template> K (nM (k v)*nM)*K <mol wire>`      → products of `transformerCall`, `;`-joined `patch` answers
 * `remap nM (k v)*nM <mol>`                            → `ok <mol>` | `err ValueError`
 * `union K <mol>*K`                                    → `ok <mol>` | `err …`
+* `union2 flag <molA> <molB>`                          → `a.union(b, remap=flag)`: `ok <mol>` | `err MappingError`
 * `overlap K (nO o*nO)*K <mol>*K`                      → `ok <mol> ; <mol> …`
 * `collide nI i*nI nO o*nO <mol>`                      → `ok <mol>`
 * `stage <template> nM (k v)*nM K <mol>*K nI i*nI nO o*nO` → `ok <mol>` (one match of `_single_stage` before `split()`)
+
+* `worklist limit nI i*nI nRows (item nR (rid key stop nS s*nS)*nR)*nRows`
+     → exhaustive mode of `Reactor.__call__` over the recorded step system: `ok k… | k…` = keys yielded by the literal FIFO
+       loop (`C16W.worklist`, fuel = rows + 1) `|` by the level-by-level `worklistBfs`; `fuel` if the loop ran out
 
 `<template>` = `deleteAtoms isQuery nP (n masked)*nP nRA (n kind z iso charge radical nh h*nh)*nRA
                nRB (n deg (m no o*no)*deg)*nRB`, kind 0 any, 1 query, 2 element, 3 unsupported.
@@ -108,6 +114,7 @@ def showErr : PyErr → String
   | .keyError n => s!"err KeyError {n}"
   | .valueError _ => "err ValueError"
   | .typeError _ => "err TypeError"
+  | .mappingError _ => "err MappingError"
 
 def sortNats (l : List Nat) : List Nat := (l.mergeSort fun a b => decide (a ≤ b)).eraseDups
 
@@ -177,6 +184,40 @@ def handleDel (xs : List Int) : String :=
         | .ok d =>   -- `sym`: the graph satisfies the hypothesis of `get_deleted_exact` (all generated graphs do)
           (if symmB g then "ok " else "ok-nosym ") ++ showNats (sortNats d)
 
+def pReaction : P (Nat × Nat × Bool × List Nat) := fun xs =>
+  match xs with
+  | rid :: key :: stop :: rest =>
+    if rid < 0 || key < 0 then none else
+    match pCounted pNat rest with
+    | none => none
+    | some (succ, r) => some ((rid.toNat, key.toNat, stop != 0, succ), r)
+  | _ => none
+
+def pRow : P (Nat × List (Nat × Nat × Bool × List Nat)) := fun xs =>
+  match pNat xs with
+  | none => none
+  | some (it, r) =>
+    match pCounted pReaction r with
+    | none => none
+    | some (rs, r') => some ((it, rs), r')
+
+def handleWorklist (xs : List Int) : String :=
+  match pNat xs with
+  | none => "badwire"
+  | some (limit, r1) =>
+    match pCounted pNat r1 with
+    | none => "badwire"
+    | some (init, r2) =>
+      match pCounted pRow r2 with
+      | none => "badwire"
+      | some (rows, _) =>
+        let S := C16W.tableSys rows
+        -- every queue item is a distinct row of the recorded tree, so `rows + |init| + 1` iterations are enough
+        match C16W.worklist S limit (rows.length + init.length + 1) init with
+        | none => "fuel"
+        | some out =>
+          "ok " ++ showNats (out.map S.key) ++ " | " ++ showNats ((C16W.worklistBfs S limit init).map S.key)
+
 def showMolRes : Except PyErr Mol → String
   | .error e => showErr e
   | .ok m => "ok " ++ renderMol m
@@ -210,6 +251,16 @@ def handle (line : String) : String :=
         match pCounted pMol xs with
         | none => "badwire"
         | some (ms, _) => showMolRes (unionAll ms)
+      | "union2" =>   -- `union2 flag <molA> <molB>`: `a.union(b, remap=flag)`
+        match pNat xs with
+        | none => "badwire"
+        | some (flag, r) =>
+          match pMany pMol 2 r with
+          | some ([a, b], _) =>
+            if !(a.WF && b.WF) then "malformed"   -- hypotheses of `Props.C16.union_*`
+            else showMolRes (unionR (flag != 0) a b)
+          | _ => "badwire"
+      | "worklist" => handleWorklist xs
       | "overlap" =>
         match pNat xs with
         | none => "badwire"
